@@ -37,6 +37,39 @@ T = {
  'C16-B': ('C16', 'PacketBuilder write through BufWriter without flush: I/O error swallowed', 'failing writer with an empty payload or a payload shorter than the headers'),
  'C17-A': ('C17', 'NdpOptionHeader::byte_len: shift in u8 before widening', 'NDP option with Length >= 32'),
  'C17-B': ('C17', 'Icmpv6PayloadSlice::from_type_u8: Redirect (137) lost its code == 0 guard', 'ICMPv6 type 137 with a non-zero code through payload_slice()'),
+ 'C01-C': ('C01', 'Ipv6ExtensionSliceIter::next: five match arms merged, header length always computed from the second byte (fragment header: reserved byte)', 'IPv6 fragment header with a non-zero reserved byte, then iterating extensions() of the decoded result'),
+ 'C02-C': ('C02', 'LinuxSllHeaderSlice::sender_address: `&self.slice[6..min(..)]` simplified to `&self.slice[6..14][..length]` (clamp lost) -> slice index panic', 'SLL header with address length > 8, then sender_address()'),
+ 'C02-D': ('C02', 'NdpOptionsIterator: stop-after-error handling "cleaned up", the three early header errors no longer exhaust the iterator', 'NDP option list with a malformed option header and a second next() call: same error forever'),
+ 'C03-C': ('C03', 'Ipv4HeaderSlice::is_fragmenting_payload: one 16 bit read masked with !0x4000 (reserved flag bit counts as fragmentation)', 'unfragmented IPv4 packet with the reserved flag bit set'),
+ 'C03-D': ('C03', 'TcpSlice::from_slice: header length `byte12 >> 2` instead of `(byte12 & 0xf0) >> 2` (reserved bits leak into the length)', 'TCP byte 12 with reserved bit 0x08 or 0x04 set'),
+ 'C04-C': ('C04', 'Ipv6FragmentHeaderSlice::is_fragmenting_payload: whole offset/flags word compared with zero (reserved bits count)', 'IPv6 fragment header with offset 0, M=0 and a reserved bit set: slicing says fragmented, struct decoding does not'),
+ 'C04-D': ('C04', 'TcpSlice::from_slice: header length `byte12 >> 2` (same change as C03-D, produced independently)', 'TCP byte 12 with reserved bit 0x08 or 0x04 set: slicing and struct decoding disagree'),
+ 'C05-C': ('C05', 'Ipv6ExtensionsSlice::from_slice_lax, fragment arm: `fragmented = slice.is_fragmenting_payload()` (accumulation dropped)', 'two chained fragment headers, the earlier one fragmenting, the last one atomic'),
+ 'C05-D': ('C05', 'UdpSlice::from_slice_lax: arms de-duplicated, `LEN < field_len` instead of `<=`', 'UDP length field exactly 8 with trailing bytes in the IP payload'),
+ 'C06-C': ('C06', 'SlicedPacketCursor::slice_ipv4 / slice_ipv6: offset via slice.len() - payload.len() instead of the pointer difference', 'ether type / Ethernet door, slice longer than the IP length, transport header cut by the IP length'),
+ 'C06-D': ('C06', 'TcpHeader::read: ns taken from the whole low nibble of byte 12', 'TCP bytes with a reserved bit set and NS = 0, read vs from_slice'),
+ 'C07-C': ('C07', 'IpSlice::from_slice: version match on `first_byte & 0xf0`, catch-all arm reports the masked unshifted byte', 'IP version nibble other than 0, 4, 6'),
+ 'C07-D': ('C07', 'IpHeaders::from_ipv4_slice: total_len check de-duplicated, required_len rebuilt as MIN_LEN + payload_len', 'IPv4 header with options, slice shorter than total_len, through the struct decoders'),
+ 'C08-C': ('C08', 'TryFrom<u16> for LinuxNonstandardEtherType: lookup table "simplified" into ranges, 0x000F accepted', 'SLL header with ARPHRD ETHERNET and protocol type 0x000F'),
+ 'C08-D': ('C08', 'IpAuthHeader: hand-written PartialEq replaced by derive (compares the whole ICV buffer incl. stale bytes)', 'set_raw_icv with a shorter ICV, then encode, decode, compare'),
+ 'C09-C': ('C09', 'Ipv4Header::calc_header_checksum: flags/offset word as u16 arithmetic, offset masked with 0x0fff', 'fragment offset >= 0x1000'),
+ 'C09-D': ('C09', 'u64_16bit_word::ones_complement: fold 64 -> 32 -> 16 -> 16, last carry truncated', 'accumulated sum whose folds carry twice (about 2^-17 of inputs)'),
+ 'C10-C': ('C10', 'packet_builder.rs final_size: IPv4 arm uses Ipv4Header::MIN_LEN instead of header_len()', 'IPv4 header with options supplied through PacketBuilder::ip'),
+ 'C10-D': ('C09', 'Ipv4Header::calc_header_checksum: flags block flattened, high offset byte masked with 0x0f (seeded for C10: emitted header checksum does not verify)', 'fragment offset >= 0x1000 through the builder'),
+ 'C11-C': ('C11', 'IpDefragPool::process_sliced_packet, IPv6 branch: only the first extension header is inspected for the fragment header', 'IPv6 fragments with another extension header in front of the fragment header'),
+ 'C11-D': ('C11', 'IpDefragBuf::add: retain closure replaced by an index loop that stops at the first section behind the new end (assumes sorted sections)', 'a later non-adjacent fragment arriving before two neighbouring earlier ones'),
+ 'C12-C': ('C12', 'IpHeaders::next_header: early return when the IP header names no extension header', 'extension headers present but not referenced: next_header() Ok while write() fails'),
+ 'C12-D': ('C12', 'IpHeaders::set_next_headers: IPv6 arm returns EtherType::IPV4', 'any IPv6 header set whose caller uses the returned ether type'),
+ 'C13-C': ('C13', 'TcpOptionsIterator::next: END arm consumes only the run of zero bytes, exhaustion step only after errors', 'END followed by a non-zero byte and a second next() after None'),
+ 'C13-D': ('C13', 'TcpOptions::try_from_elements SACK arm: length counter declared outside the element loop', 'two SACK elements, the earlier one with extra blocks'),
+ 'C14-C': ('C14', 'UdpHeader::without_ipv4_checksum: `as u16` removed, usize addition before the range check', 'payload_length in usize::MAX-7 ..= usize::MAX'),
+ 'C14-D': ('C14', 'MacsecShortLen::from_len: `len <= 0b0100_0000` (off by one)', 'len == 64'),
+ 'C15-C': ('C15', 'TryFrom<u32> for Ipv6FlowLabel: `(0..=1 << 20).contains(&value)`', 'the value 0x10_0000 through TryFrom'),
+ 'C15-D': ('C15', 'Ipv4HeaderSlice::fragments_offset: flags cleared with & !(0x4000 | 0x2000), reserved bit leaks into the offset', 'IPv4 header with the reserved flag bit set, slice decoders'),
+ 'C16-C': ('C16', 'Ipv6Header::skip_header_extension: fragment arm returns after a seek, skipping the final one-byte read', 'reader ending or failing inside a fragment header that is the last header skipped'),
+ 'C16-D': ('C16', 'LinuxSllHeader::write_to_slice: length check against LAST_INDEX with `<` (off by one) -> panic', 'target slice of exactly 15 bytes'),
+ 'C17-C': ('C17', 'ArpPacket::try_eth_ipv4: size checks replaced by first_chunk (accepts oversized addresses)', 'ARP packet with hln > 6 or pln > 4'),
+ 'C17-D': ('C17', 'Icmpv6Slice::icmp_type: guards rewritten as tuple match, (TYPE_ROUTER_SOLICITATION, _)', 'ICMPv6 type 133 with a non-zero code'),
 }
 evals = {}
 for f in sorted(glob.glob(os.path.join(V, 'seeded', 'eval', '*.log'))):
